@@ -95,6 +95,9 @@ TARGETS = [
     ("pams/agents/market_maker_agent.py", "MarketMakerAgent", "get_base_price"),
     ("pams/agents/market_maker_agent.py", "MarketMakerAgent", "submit_orders"),
     ("pams/agents/fcn_agent.py", "FCNAgent", "submit_orders_by_market"),
+    ("pams/agents/market_share_fcn_agent.py", "MarketShareFCNAgent", "submit_orders"),
+    ("pams/agents/market_share_fcn_agent.py", "MarketShareFCNAgent", "get_sum_trade_volume"),
+    ("pams/market.py", "Market", "get_executed_volumes"),
     ("pams/simulator.py", "Simulator", "_update_agents_for_execution"),
     ("pams/simulator.py", "Simulator", "_add_event"),
     ("pams/simulator.py", "Simulator", "_check_event_class_and_instance"),
@@ -245,6 +248,18 @@ def expr(e):
             and e.args[0].func.id == "set" and len(e.args[0].args) == 1 and not e.args[0].keywords:
         # `len(set(xs))`: the number of distinct items (sets as values are outside the fragment)
         return "(.call (.name \"__len_set\") [%s] [] [])" % expr(e.args[0].args[0])
+    if isinstance(e, ast.Call) and isinstance(e.func, ast.Attribute) and isinstance(e.func.value, ast.Call) \
+            and isinstance(e.func.value.func, ast.Name) and e.func.value.func.id == "super" and not e.func.value.args:
+        # `super().m(args)` inside class C: the definition of `m` in the nearest ancestor of C that has one,
+        # called as a plain function with `self` first
+        owner = super_owner(CUR_CLASS[0], e.func.attr)
+        for a in e.args:
+            if isinstance(a, ast.Starred):
+                raise Unsupported("*args in a call")
+        return "(.call (.name %s) %s %s %s)" % (lstr("%s.%s" % (owner, e.func.attr)),
+                                                llist(["(.name \"self\")"] + [expr(a) for a in e.args]),
+                                                llist([lstr(k.arg) for k in e.keywords]),
+                                                llist([expr(k.value) for k in e.keywords]))
     if isinstance(e, ast.Call) and isinstance(e.func, ast.Name) and e.func.id == "dict" and len(e.args) == 1 \
             and len(e.keywords) == 1 and e.keywords[0].arg is None:
         # `dict(pairs, **d)`: the dict of the pairs, updated with the items of `d`
@@ -442,6 +457,33 @@ def wrap(s, width=110):
     return "\n      ".join(textwrap.wrap(s, width=width, break_long_words=False, break_on_hyphens=False))
 
 
+CUR_CLASS = [None]
+
+
+def super_owner(cls, method):
+    """the nearest proper ancestor of `cls` (by the class statements of pams) that defines `method`"""
+    if cls is None:
+        raise Unsupported("super() outside a class")
+    defs, bases = {}, {}
+    for root, _, files in os.walk(os.path.join(REPO, "pams")):
+        for f in sorted(files):
+            if f.endswith(".py"):
+                tree = ast.parse(open(os.path.join(root, f)).read())
+                for node in tree.body:
+                    if isinstance(node, ast.ClassDef) and node.name not in defs:
+                        defs[node.name] = {n.name for n in node.body if isinstance(n, ast.FunctionDef)}
+                        bases[node.name] = [b.id if isinstance(b, ast.Name) else b.attr if isinstance(b, ast.Attribute)
+                                            else "?" for b in node.bases]
+    cur = cls
+    while True:
+        known = [b for b in bases.get(cur, []) if b in defs]
+        if len(known) != 1:
+            raise Unsupported("super().%s: no single known base class of %s" % (method, cur))
+        cur = known[0]
+        if method in defs[cur]:
+            return cur
+
+
 MRO_ROOTS = ("Market", "Order", "Cancel", "Agent", "Log")
 
 
@@ -484,6 +526,7 @@ def generate(targets=None):
         q = "%s.%s" % (cls, fn) if cls else fn
         ident = lean_ident(cls, fn)
         node = find(trees[rel], cls, fn)
+        CUR_CLASS[0] = cls
         try:
             if node is None:
                 raise Unsupported("not found in %s" % rel)
